@@ -191,9 +191,19 @@ def _step_pattern(step):
 
 
 def _candidates(src, mask, lo, hi, steps, path):
-    pat, depth0 = _step_pattern(steps[0])
+    step0 = steps[0]
+    nth = None
+    mm = re.match(r'(.*)#(\d+)$', step0)
+    if mm:                       # `fn name#2`: the 2nd item of that name in this scope (cfg-duplicated items)
+        step0, nth = mm.group(1), int(mm.group(2))
+    pat, depth0 = _step_pattern(step0)
     out = []
-    for m in re.finditer(pat, mask[lo:hi]):
+    hits = [m for m in re.finditer(pat, mask[lo:hi])]
+    if depth0:
+        hits = [m for m in hits if mask[lo:lo + m.start()].count('{') == mask[lo:lo + m.start()].count('}')]
+    if nth is not None:
+        hits = hits[nth - 1:nth]
+    for m in hits:
         s = lo + m.start()
         if depth0:
             seg = mask[lo:s]
